@@ -414,7 +414,7 @@ def check_c03(idx: Index, tier: str, res: Result) -> None:
                        "numeric built-ins match reference shapes; (5) unknown functions fail as loudly as unknown operators; (6) every "
                        "identifier stored into the IR is passed through sanitizeName.")
     res.rules = ["VOCAB: grammar spellings vs operators table vs reference mapping", "FLAT: shape of the binary templates",
-                 "PREC: pairwise precedence/associativity, Python vs XMILE", "IRLIT: hole-safety of plugin-built IR literals",
+                 "PREC: pairwise precedence/associativity, Python vs XMILE", "IRLIT: hole-safety of plugin-built IR literals", "PAREN: a parenthesised sentence reaches the generator inside a '()' node",
                  "R1: built-in argument holes vs flat infix probes", "R3: reference shapes of the numeric built-ins",
                  "LOUD: sibling contradiction call/operator branch", "NAMES: who-must-call sanitizeName"]
     res.not_decided = ["that sanitizeName identifies exactly the spellings XMILE treats as equal (a function over strings)",
@@ -575,6 +575,7 @@ def check_c03(idx: Index, tier: str, res: Result) -> None:
     _builtin_shapes(res, renderers)
 
     _time_shift_builtins(idx, res)
+    _paren_nodes(idx, res)
 
     # ---- (5) loud failure --------------------------------------------------------------------------------------------------------
     pe = idx.func(PY, "parseExpression")
@@ -651,6 +652,90 @@ def check_c03(idx: Index, tier: str, res: Result) -> None:
     ok = bool(rets) and any("self.memoize" in src(r_.value) and ", t)" in src(r_.value) for r_ in rets)
     res.check("NAMES", "an identifier is emitted as self.memoize('<name>', t)", ok, pe.loc(), pe.qual, src(rets[-1].value)[:80] if rets else "",
               "identifiers are not emitted as memo lookups at t", key="NAMES/parseExpression/identifier")
+
+
+# ---------------------------------------------------------------------------
+# explicit parentheses survive the PEG visitor
+# ---------------------------------------------------------------------------
+
+def _paren_nodes(idx: Index, res: Result) -> None:
+    """PAREN: the generator flattens the IR to text, so a parenthesised sentence keeps its grouping only through the '()' node that
+    SMILEVisitor.visit_Atom builds around it.  On the parenthesised branch every return is that node; a bare return is accepted
+    only under a guard that admits nothing but self-delimiting IR (identifier / call dicts).  Numbers are not: the grammar's
+    ``significant`` rule accepts a leading '-', and parseExpression emits numbers as they are, so (-3)^2 would become -3.0**2."""
+    fi = idx.func(GRAMMAR, "SMILEVisitor.visit_Atom")
+    branch = [n for n in fi.node.body if isinstance(n, ast.If) and "visited_children[0]" in src(n.test) and "list" in src(n.test)]
+    if len(branch) != 1:
+        raise AnalysisError("visit_Atom: parenthesised branch (type(visited_children[0]) == list) not found")
+    br = branch[0]
+    sent = None
+    for n in br.body:
+        if isinstance(n, ast.Assign) and isinstance(n.targets[0], ast.Tuple) and len(n.targets[0].elts) == 3 and "visited_children[0]" in src(n.value):
+            sent = src(n.targets[0].elts[1])
+    if sent is None:
+        raise AnalysisError("visit_Atom: '_, Sentence, _ = visited_children[0]' not found")
+    gm = idx.module(GRAMMAR)
+    gtext = " ".join(c.value for c in ast.walk(gm.tree) if isinstance(c, ast.Constant) and isinstance(c.value, str) and "NumericLiteral" in c.value)
+    m = re.search(r"^\s*significant\s*=\s*(.+)$", gtext, flags=re.M)
+    if not m:
+        raise AnalysisError("grammar rule 'significant' vanished")
+    signed = "'-'" in m.group(1) or '"-"' in m.group(1)
+
+    def admitted(test: ast.AST) -> Set[str]:
+        alts = test.values if isinstance(test, ast.BoolOp) and isinstance(test.op, ast.Or) else [test]
+        kinds: Set[str] = set()
+        for a in alts:
+            txt = src(a)
+            strs = {c.value for c in ast.walk(a) if isinstance(c, ast.Constant) and isinstance(c.value, str)}
+            names = {x.id for x in ast.walk(a) if isinstance(x, ast.Name)}
+            if names & {"float", "int"}:
+                kinds.add("number")
+            elif strs & {"identifier", "call"} and "type" in strs and any(isinstance(c, ast.Compare) and isinstance(c.ops[0], (ast.Eq, ast.In)) for c in ast.walk(a)):
+                kinds |= strs & {"identifier", "call"}
+            else:
+                kinds.add("anything (%s)" % txt[:40])
+        return kinds
+
+    def visit(stmts, guards):
+        for st in stmts:
+            if isinstance(st, ast.Return):
+                yield st, guards
+            elif isinstance(st, ast.If):
+                yield from visit(st.body, guards + [st.test])
+                yield from visit(st.orelse, guards + [None])
+            elif isinstance(st, (ast.For, ast.While, ast.With, ast.Try)):
+                raise AnalysisError("visit_Atom: unexpected control flow on the parenthesised branch")
+    nret = 0
+    for ret, guards in visit(br.body, []):
+        nret += 1
+        v = ret.value
+        if isinstance(v, ast.Dict):
+            mm = {const_str(k): val for k, val in zip(v.keys, v.values)}
+            ok = const_str(mm.get("name", ast.Constant(0))) == "()" and const_str(mm.get("type", ast.Constant(0))) == "operator" and \
+                isinstance(mm.get("args"), ast.List) and [src(e) for e in mm["args"].elts] == [sent]
+            res.check("PAREN", "visit_Atom wraps a parenthesised sentence in a '()' node", ok, fi.loc(ret), fi.qual, src(v)[:90],
+                      "the parenthesised branch of visit_Atom returns %s instead of the '()' operator node around the sentence" % src(v)[:80],
+                      key="PAREN/visit_Atom/node-shape")
+        elif src(v) == sent:
+            kinds: Set[str] = set()
+            if not guards or guards[-1] is None:
+                kinds = {"anything"}
+            else:
+                kinds = admitted(guards[-1])
+            unsafe = sorted(k for k in kinds if k.startswith("anything") or (k == "number" and signed))
+            res.check("PAREN", "visit_Atom returns a bare sentence only when it is self-delimiting", not unsafe, fi.loc(ret), fi.qual,
+                      "return %s  [admits %s]" % (sent, sorted(kinds)),
+                      "visit_Atom drops the '()' node for %s: the generator flattens the tree to text and emits numbers as they are, while "
+                      "the grammar's numeric literal accepts a leading '-'; '(-3)^2' is then emitted as '-3.0**2'" % ", ".join(unsafe),
+                      key="PAREN/visit_Atom/bare-%s" % ("number" if "number" in unsafe else "sentence"))
+        else:
+            raise AnalysisError("visit_Atom: unrecognised return on the parenthesised branch: %s" % src(v)[:60])
+    res.floor("returns on the parenthesised branch of visit_Atom", nret, 1)
+    pe = idx.func(PY, "parseExpression")
+    num = [n for n in pe.node.body if isinstance(n, ast.If) and "float" in src(n.test) and "expression" in src(n.test) and
+           any(isinstance(x, ast.Return) for x in n.body)]
+    if not num:
+        raise AnalysisError("parseExpression: number branch not found")
 
 
 # ---------------------------------------------------------------------------
@@ -962,6 +1047,102 @@ def _previous_regexes(idx: Index) -> List[Tuple[str, str]]:
     return subs
 
 
+def _join_fold(idx: Index, res: Result) -> int:
+    """JOIN: JoinedExpression / DimJoinedExpression put *every* flow name into the joined IR exactly once.  For more than two names they
+    split the list into ``tail`` (seed of the accumulator) and ``rest`` and fold ``rest`` into the accumulator; the rule checks the
+    split is a partition, the loop threads the accumulator (loop-carried), every element of rest enters, and the accumulator is returned."""
+    n_inst = 0
+    for qual in ("JoinedExpression", "DimJoinedExpression"):
+        fi = idx.try_func(STOCKX, qual)
+        if fi is None:
+            if qual == "JoinedExpression":
+                raise AnalysisError("anchor vanished: stockExpressions.JoinedExpression")
+            continue
+        names = params(fi.node)[0]
+        loops = [n for n in walk_no_nested(fi.node) if isinstance(n, ast.For)]
+        if len(loops) != 1:
+            raise AnalysisError("%s: expected one fold loop, found %d" % (qual, len(loops)))
+        lp = loops[0]
+        n_inst += 1
+        # the collection folded and the element variable
+        it = lp.iter
+        wrappers = []
+        while isinstance(it, ast.Call) and call_name(it) in ("enumerate", "reversed", "list", "iter") and it.args:
+            wrappers.append(call_name(it))
+            it = it.args[0]
+        coll = src(it)
+        tnames = [x.id for x in ast.walk(lp.target) if isinstance(x, ast.Name)]
+        elem = tnames[-1] if "enumerate" in wrappers else tnames[0]
+        assigns = {}
+        for n in walk_no_nested(fi.node):
+            if isinstance(n, ast.Assign):
+                for t in n.targets:
+                    if isinstance(t, ast.Name):
+                        assigns.setdefault(t.id, []).append(n)
+        # (a) partition
+        def slice_of(name):
+            for a in assigns.get(name, []):
+                v = a.value
+                if isinstance(v, ast.Subscript) and src(v.value) == names and isinstance(v.slice, ast.Slice):
+                    lo = src(v.slice.lower) if v.slice.lower else None
+                    hi = src(v.slice.upper) if v.slice.upper else None
+                    return lo, hi, a
+            return None
+        rest_sl = slice_of(coll) if coll != names else (None, None, None)
+        seeds = [nm for nm in assigns if nm != coll and slice_of(nm)]
+        ok_part, why = False, "the list folded (%s) and the seed of the accumulator are not complementary slices of %s" % (coll, names)
+        seed_name = seeds[0] if seeds else None
+        if rest_sl and seed_name:
+            slo, shi, _ = slice_of(seed_name)
+            rlo, rhi, _ = rest_sl
+            # tail = names[-k:], rest = names[:-k]   or   head = names[:k], rest = names[k:]
+            if (slo is not None and shi is None and rlo is None and rhi == slo) or (shi is not None and slo is None and rhi is None and rlo == shi):
+                ok_part = True
+                k = abs(int(slo or shi)) if (slo or shi).lstrip("-").isdigit() else None
+                acc_seed = [a for a in walk_no_nested(fi.node) if isinstance(a, ast.Assign) and isinstance(a.value, ast.Dict)
+                            and any("%s[" % seed_name in src(x) for x in ast.walk(a.value) if isinstance(x, ast.Subscript))]
+                if k is not None and acc_seed:
+                    used = sorted({src(x.slice) for x in ast.walk(acc_seed[0].value) if isinstance(x, ast.Subscript) and src(x.value) == seed_name})
+                    if used != [str(i) for i in range(k)]:
+                        ok_part, why = False, "the accumulator's seed uses %s[%s] of a %d-element slice" % (seed_name, ",".join(used), k)
+        res.check("JOIN", "%s: seed and folded list partition the names" % qual, ok_part, fi.loc(lp), fi.qual, "%s / %s" % (seed_name, coll), why,
+                  key="JOIN/%s/partition" % qual)
+        # (b) loop-carried accumulator
+        body_assigns = [n for n in lp.body if isinstance(n, ast.Assign) and isinstance(n.targets[0], ast.Name) and isinstance(n.value, ast.Call)]
+        if len(body_assigns) != 1:
+            raise AnalysisError("%s: fold loop body not understood" % qual)
+        st = body_assigns[0]
+        acc = st.targets[0].id
+        argn = [{x.id for x in ast.walk(a) if isinstance(x, ast.Name)} for a in st.value.args]
+        carried = any(acc in a for a in argn)
+        takes_elem = any(elem in a for a in argn)
+        res.check("JOIN", "%s: the fold threads its accumulator" % qual, carried, fi.loc(st), fi.qual, norm_stmt(st),
+                  "each turn of the loop computes %s from %s and not from the accumulator %s of the previous turn: with more than three names "
+                  "the ones folded earlier are dropped from the sum" % (acc, src(st.value), acc), key="JOIN/%s/accumulator-not-carried" % qual)
+        res.check("JOIN", "%s: every element of %s enters the fold" % (qual, coll), takes_elem, fi.loc(st), fi.qual, norm_stmt(st),
+                  "the fold step %s does not take the loop element %s" % (src(st.value), elem), key="JOIN/%s/element-not-folded" % qual)
+        # (c) the step function keeps both of its arguments
+        stepf = idx.try_func(STOCKX, "%s.%s" % (qual, call_name(st.value)))
+        if stepf is None:
+            raise AnalysisError("%s: fold step %s not found" % (qual, call_name(st.value)))
+        ps = params(stepf.node)
+        rets = [r for r in walk_no_nested(stepf.node) if isinstance(r, ast.Return)]
+        used = {x.id for r in rets for x in ast.walk(r) if isinstance(x, ast.Name)}
+        res.check("JOIN", "%s.%s keeps both arguments" % (qual, stepf.name), set(ps) <= used, stepf.loc(), stepf.qual, src(rets[0].value)[:80] if rets else "",
+                  "the fold step returns a node without %s" % sorted(set(ps) - used), key="JOIN/%s/step-drops-argument" % qual)
+        # (d) the accumulator is what is returned after the loop
+        after = [r for r in walk_no_nested(fi.node) if isinstance(r, ast.Return) and r.lineno > lp.lineno]
+        ok = bool(after) and all(src(r.value) == acc for r in after)
+        res.check("JOIN", "%s returns the accumulator" % qual, ok, fi.loc(after[0]) if after else fi.loc(), fi.qual, src(after[0].value) if after else "",
+                  "after the fold %s returns %s, not the accumulator %s" % (qual, src(after[0].value) if after else "nothing", acc),
+                  key="JOIN/%s/returns-%s" % (qual, src(after[0].value) if after else "nothing"))
+        # (e) the seed of the accumulator reaches the loop: acc is bound to the seed literal before the loop
+        pre = [a for a in assigns.get(acc, []) if a.lineno < lp.lineno]
+        res.check("JOIN", "%s: accumulator seeded before the loop" % qual, bool(pre), fi.loc(lp), fi.qual, acc, "the accumulator %s has no binding before the loop" % acc,
+                  key="JOIN/%s/unseeded" % qual)
+    return n_inst
+
+
 def check_c04(idx: Index, tier: str, res: Result) -> None:
     res.explanation = ("(1) the IR literal built by StockExpressions has the explicit-Euler shape IF(TIME<=STARTTIME, init, PREVIOUS(self) + "
                        "DT*PREVIOUS(net flow)) with the three net-flow forms (inflows), (-1*(outflows)), (inflows-(outflows)); (2) previous() "
@@ -969,7 +1150,7 @@ def check_c04(idx: Index, tier: str, res: Result) -> None:
                        "standard library's re.sub to the extracted identifier template; (3) non_negative => max(0, .) rendered by max_; "
                        "(4) sibling agreement: the rendered XMILE stock equals the DSL stock's normal form, LERP has the clamps and linear "
                        "interpolation of Model._lookup; (5) 'any dt': the generated model must key its memo on normalised times.")
-    res.rules = ["EULER: shape of the stock IR literal and of the rendered stock text", "PREV: regex rewrite applied to extracted templates",
+    res.rules = ["EULER: shape of the stock IR literal and of the rendered stock text", "JOIN: every inflow/outflow name enters the joined expression once (fold is loop-carried)", "PREV: regex rewrite applied to extracted templates",
                  "NONNEG: wrap and rendering", "SIBLING: XMILE vs DSL normal forms, LERP vs _lookup", "TIME: time kind in the generated class"]
     res.not_decided = ["trajectories of concrete models", "Stella compatibility of built-ins", "array expansion of arrayed stocks"]
     renderers, skipped = extract_py(idx, res)
@@ -1029,6 +1210,7 @@ def check_c04(idx: Index, tier: str, res: Result) -> None:
                   "no net-flow literal equals %s for the case '%s'" % ({"inflows only": "(inflows)", "outflows only": "(-1*(outflows))", "both": "(inflows-(outflows))", "none": "0"}[label], label),
                   key="EULER/StockExpressions/net-%s" % label.replace(" ", "-"))
     res.floor("net-flow literals", len(forms), 4)
+    res.floor("flow-joining folds", _join_fold(idx, res), 2)
 
     # ---- (2) previous() ---------------------------------------------------------------------------------------------------
     subs = _previous_regexes(idx)
